@@ -206,6 +206,9 @@ func (v *FnVC) specIndex(a, i Term, env *Env, cl *Clause) Term {
 	case *types.Array:
 		return Term{fmt.Sprintf("(select %s %s)", a.S, i.S), u.Elem()}
 	case *types.Map:
+		if isGhostMap(a.T) {
+			return Term{fmt.Sprintf("(select %s %s)", a.S, i.S), u.Elem()}
+		}
 		var out string
 		v.withState(env.st, func() {
 			kk, _, _ := v.mapKeys(a.T)
